@@ -213,11 +213,26 @@ def oracle(ctx, res):
             bads += [dict(message_length=0)] if msg else []
             bads += [dict(key_length=max(0, len(key) - 1))] if key else []
             for bad in bads:
-                try:
-                    HmacPRF(output_length=n, hash_func_name=dg, **bad)(key, msg)
-                    viol("PRF length contract not enforced", str(bad), inp)
-                except ValueError:
-                    pass
+                inst = HmacPRF(output_length=n, hash_func_name=dg, **bad)
+                # the contract holds at EVERY call of one instance: the same violating call again, and again after a valid call
+                for attempt in ("first", "repeated"):
+                    try:
+                        inst(key, msg)
+                        viol("PRF length contract not enforced", f"{bad} ({attempt} violating call on one instance)", dict(inp, declared=str(bad), attempt=attempt))
+                    except ValueError:
+                        pass
+                if "key_length" in bad:
+                    try:
+                        good = inst(rb(rng, bad["key_length"]), msg)
+                        if len(good) != n:
+                            viol("PRF output length != requested", f"{len(good)} != {n}", inp)
+                    except Exception as e:
+                        viol("PRF raised on valid input", f"{type(e).__name__}: {e} (key of the declared length after a refused call)", inp)
+                    try:
+                        inst(key, msg)
+                        viol("PRF length contract not enforced", f"{bad} (violating call after a valid one on the same instance)", dict(inp, declared=str(bad)))
+                    except ValueError:
+                        pass
         except Exception as e:
             viol("PRF raised on valid input", f"{type(e).__name__}: {e}", inp)
         name = rng.choice(PRF_DIGESTS + XOFS)
